@@ -102,6 +102,11 @@ class Run:
             env.clock.advance(ev[1])
             env.poll_timers()
             env.drain_process()
+        elif ev[0] == 'clk':
+            env.clock.advance(ev[1])          # time passes; the timer thread has not come round yet
+        elif ev[0] == 'poll':
+            env.poll_timers()
+            env.drain_process()
         return '%s | %s' % ('; '.join(self.out), self.state())
 
     def toggled(self, k, t):
@@ -112,14 +117,16 @@ class Run:
 
 def words(T, style, has_ditto, depth, r, sample=None):
     lt, gt = int(T * 0.5), int(T * 1.5) + 50
-    base = [('frame', 1, 0), ('frame', 2, 0), ('adv', lt), ('adv', gt)]
+    base = [('frame', 1, 0), ('frame', 2, 0), ('adv', lt), ('adv', gt), ('clk', gt), ('poll',)]
     if style == 'toggle':
         base.append(('frame', 1, 1))
     if has_ditto:
         base.append(('rep',))
     ws = [w for n in range(1, depth + 1) for w in itertools.product(base, repeat=n)]
     if sample and len(ws) > sample:
-        ws = r.sample(ws, sample)
+        short = [w for w in ws if len(w) <= 3]            # every word up to length 3, a sample of the longer ones
+        longer = [w for w in ws if len(w) > 3]
+        ws = short + r.sample(longer, min(len(longer), sample))
     return ws
 
 
@@ -166,6 +173,10 @@ def check(ctx):
                     ops.append('tm frame %d %d' % (ev[1], ev[2]))
                 elif ev[0] == 'rep':
                     ops.append('tm rep')
+                elif ev[0] == 'clk':
+                    ops.append('tm clk %d' % ev[1])
+                elif ev[0] == 'poll':
+                    ops.append('tm poll')
                 else:
                     ops.append('tm adv %d' % ev[1])
                 reals.append(line); marks.append((pname, w))
@@ -201,7 +212,7 @@ def oracle(ctx, pname, style, T, word, trace):
     dec_times, rel_times = {}, {}
     last_frame_time = {}
     for ev, line in trace:
-        if ev[0] == 'adv':
+        if ev[0] in ('adv', 'clk'):
             now += ev[1]
         outs = line.split(' | ')[0]
         for tok in [t.strip() for t in outs.split(';') if t.strip()]:
